@@ -106,12 +106,35 @@ def status():
             src_ok = rc == 0
             mod_ok = {}
             order = registry_order(reg)
+            deps = module_deps(order)
             if src_ok:
-                for m in order:
+                # in waves: every module whose imports are done, several at a time
+                from concurrent.futures import ThreadPoolExecutor
+
+                def compile_one(m):
                     rel = m.replace(".", "/") + ".lean"
                     rc2, out2, _ = core.run(["lean", "-R", core.LEAN_DIR, "-o", os.path.join(work, rel[:-5] + ".olean"),
                                              os.path.join(core.LEAN_DIR, rel)], cwd=core.LEAN_DIR, timeout=2400, env=env)
-                    mod_ok[m] = (rc2 == 0, out2[-1500:])
+                    return m, (rc2 == 0, out2[-1500:])
+                todo = list(order)
+                while todo:
+                    ready = [m for m in todo if all(d in mod_ok for d in deps[m])]
+                    if not ready:
+                        for m in todo:
+                            mod_ok[m] = (False, "import cycle")
+                        break
+                    wave = []
+                    for m in ready:
+                        todo.remove(m)
+                        broken = [d for d in deps[m] if not mod_ok[d][0]]
+                        if broken:
+                            # never compile against a stale (lake-built, old-text) copy of a module that failed
+                            mod_ok[m] = (False, "its import %s no longer checks: %s" % (broken[0], mod_ok[broken[0]][1][-400:]))
+                        else:
+                            wave.append(m)
+                    with ThreadPoolExecutor(max_workers=max(1, min(6, core.NPROC if hasattr(core, "NPROC") else 6))) as ex:
+                        for m, r2 in ex.map(compile_one, wave):
+                            mod_ok[m] = r2
             res["diff"] = []
             if src_ok:
                 # the translated CURRENT source against the model, on sizes far beyond the Python boxes
@@ -143,14 +166,14 @@ def status():
     return res
 
 
-def registry_order(reg):
-    """refinement modules in an order compatible with their imports of each other"""
-    mods = sorted({spec["module"] for spec in reg.values()})
-    deps = {}
-    for m in mods:
-        with open(os.path.join(core.LEAN_DIR, m.replace(".", "/") + ".lean")) as f:
-            imps = re.findall(r"^import\s+(\S+)", f.read(), re.M)
-        deps[m] = [i for i in imps if i in mods]
+def registry_order(reg=None):
+    """EVERY module of CkptGen downstream of the generated `Src` (registered or not: a helper module compiled against
+    the old text must not be mixed with the regenerated one), in an order compatible with their imports"""
+    import glob
+    skip = {"CkptGen.Prelude", "CkptGen.Src", "CkptGen.Run", "CkptGen.Diff"}
+    mods = sorted("CkptGen." + os.path.basename(f)[:-5] for f in glob.glob(os.path.join(GEN_DIR, "*.lean")))
+    mods = [m for m in mods if m not in skip]
+    deps = module_deps(mods)
     out = []
 
     def visit(m):
@@ -162,6 +185,15 @@ def registry_order(reg):
     for m in mods:
         visit(m)
     return out
+
+
+def module_deps(mods):
+    deps = {}
+    for m in mods:
+        with open(os.path.join(core.LEAN_DIR, m.replace(".", "/") + ".lean")) as f:
+            imps = re.findall(r"^import\s+(\S+)", f.read(), re.M)
+        deps[m] = [i for i in imps if i in mods]
+    return deps
 
 
 def for_property(prop, st=None):
